@@ -138,6 +138,11 @@ def make_inputs(wd, rng, tier, nrandom):
     if rc != 0:
         raise common.InfraError("cannot prepare the attachment input with the binary under test", se.decode("latin-1")[-500:])
     inputs["att"] = {"path": ap, "warn": False, "att": True}
+    # the same file with a wrong startxref: a damaged file that HAS embedded files (a-damaged.pdf has none)
+    ad = open(ap, "rb").read()
+    if len(re.findall(rb"startxref\n\d+\n", ad)) != 1:
+        raise common.InfraError("the attachment input is not written with a classic xref table", ad[-200:].decode("latin-1"))
+    open(os.path.join(wd, "a-damaged-att.pdf"), "wb").write(re.sub(rb"startxref\n\d+\n", b"startxref\n7\n", ad))
     return inputs
 
 
@@ -178,14 +183,27 @@ class Run:
     pass
 
 
-def run_binary(rundir, scen, inp, fault, keep=False, extra_args=()):
-    """fault: 'none' | 'full@k' | 'disk@k' | 'fail@k' | 'killb@k' | 'killa@k' | 'cap@L'"""
+DIRMARK = b"\x00<directory>"     # what Run.files holds for a name that is a directory
+
+
+def run_binary(rundir, scen, inp, fault, keep=False, extra_args=(), tail_args=(), pre=None):
+    """fault: 'none' | 'full@k' | 'disk@k' | 'fail@k' | 'killb@k' | 'killa@k' | 'cap@L'
+    tail_args: appended to the command line; pre: what the directory holds before the run besides the input
+    ({relative name: bytes, or None for a directory, or a list of names for a directory with those (empty) files})"""
     kind, mkargs = SCENARIOS[scen]
     shutil.rmtree(rundir, ignore_errors=True)
     os.makedirs(rundir)
     if kind == "R":
         shutil.copy(inp["path"], os.path.join(rundir, "outrep.pdf"))
-    argv = list(extra_args) + mkargs(inp["path"], ".")    # relative output names: the JSON output embeds them
+    for rel, content in (pre or {}).items():
+        if content is None or isinstance(content, list):
+            os.makedirs(os.path.join(rundir, rel))
+            for sub in content or []:
+                open(os.path.join(rundir, rel, sub), "wb").close()
+        else:
+            with open(os.path.join(rundir, rel), "wb") as f:
+                f.write(content)
+    argv = list(extra_args) + mkargs(inp["path"], ".") + list(tail_args)    # relative output names: the JSON output embeds them
     env = dict(os.environ)
     env.pop("QPDF_CRYPTO_PROVIDER", None)
     r_fd, w_fd = os.pipe()
@@ -240,6 +258,9 @@ def run_binary(rundir, scen, inp, fault, keep=False, extra_args=()):
     res.files = {}
     for fn in os.listdir(rundir):
         if fn.startswith("out") and (fn != "out.stdout" or kind == "O"):     # (ptrace.log does not start with "out")
+            if os.path.isdir(os.path.join(rundir, fn)):
+                res.files[fn] = DIRMARK + ",".join(sorted(os.listdir(os.path.join(rundir, fn)))).encode()
+                continue
             with open(os.path.join(rundir, fn), "rb") as f:
                 res.files["<stdout>" if fn == "out.stdout" else fn] = f.read()
     res.argv = ["qpdf"] + [os.path.basename(a) if a == inp["path"] else a for a in argv]
